@@ -36,7 +36,7 @@ Theorem history_independent ops h o : model_of (run ops h) o = model_of h o.
 Proof. rewrite run_frame. reflexivity. Qed.
 
 Definition ex_heap : heap :=
-  {| h_graph := []; h_opts := [KUser 0]; h_has_ext := true; h_ext := []; h_sopts := [1]; h_cons := [2]; h_ign := []; h_starts := []; h_ends := []; h_defaults := [] |}.
+  {| h_graph := []; h_opts := [KUser 0]; h_has_ext := true; h_ext := []; h_sopts := [1]; h_cons := [2]; h_ign := []; h_starts := []; h_ends := []; h_sup := [3; 1; 3]; h_defaults := [] |}.
 Definition mk_op c p s hc sv := {| o_cls := c; o_pass_opts := p; o_sup := s; o_hc := hc; o_solve := sv |}.
 
 (* ---------------------------------------------------------------- old behaviour (before 5ed9792) *)
@@ -102,7 +102,7 @@ Qed.
 Lemma step_only_opts hold_of h o :
   let h' := step_gen hold_of h o in
   h_graph h' = h_graph h /\ h_sopts h' = h_sopts h /\ h_cons h' = h_cons h /\
-  h_ign h' = h_ign h /\ h_starts h' = h_starts h /\ h_ends h' = h_ends h /\ h_defaults h' = h_defaults h.
+  h_ign h' = h_ign h /\ h_starts h' = h_starts h /\ h_ends h' = h_ends h /\ h_sup h' = h_sup h /\ h_defaults h' = h_defaults h.
 Proof.
   cbv zeta. rewrite step_gen_opts.
   unfold opts_step. destruct (negb (o_pass_opts o) || is_empty (h_opts h)); [repeat split|].
@@ -111,12 +111,12 @@ Qed.
 Theorem run_only_opts hold_of ops : forall h,
   let h' := run_gen hold_of ops h in
   h_graph h' = h_graph h /\ h_sopts h' = h_sopts h /\ h_cons h' = h_cons h /\
-  h_ign h' = h_ign h /\ h_starts h' = h_starts h /\ h_ends h' = h_ends h /\ h_defaults h' = h_defaults h.
+  h_ign h' = h_ign h /\ h_starts h' = h_starts h /\ h_ends h' = h_ends h /\ h_sup h' = h_sup h /\ h_defaults h' = h_defaults h.
 Proof.
   induction ops as [|o r IH]; intros h; [repeat split|].
   change (run_gen hold_of (o :: r) h) with (run_gen hold_of r (step_gen hold_of h o)).
-  destruct (IH (step_gen hold_of h o)) as (A & B & C & D & E & F & G).
-  destruct (step_only_opts hold_of h o) as (A' & B' & C' & D' & E' & F' & G').
+  destruct (IH (step_gen hold_of h o)) as (A & B & C & D & E & F & G & G2).
+  destruct (step_only_opts hold_of h o) as (A' & B' & C' & D' & E' & F' & G' & G2').
   cbv zeta in *. repeat split; congruence.
 Qed.
 Theorem run_keeps_keys hold_of ops : forall h k,
@@ -160,7 +160,7 @@ Proof. unfold run_sw. apply run_frame. Qed.
 Lemma head_step_only_ext h o :
   let h' := head_step h o in
   h_graph h' = h_graph h /\ h_opts h' = h_opts h /\ h_sopts h' = h_sopts h /\ h_cons h' = h_cons h /\
-  h_ign h' = h_ign h /\ h_starts h' = h_starts h /\ h_ends h' = h_ends h /\ h_defaults h' = h_defaults h.
+  h_ign h' = h_ign h /\ h_starts h' = h_starts h /\ h_ends h' = h_ends h /\ h_sup h' = h_sup h /\ h_defaults h' = h_defaults h.
 Proof.
   cbv zeta. unfold head_step, step_gen2.
   assert (E : opts_step opts_hold h o = h).
